@@ -9,34 +9,34 @@ from gen_programs import Gen, Scope
 
 PID = "C02"
 MANIFEST = {
-    "text": "19 Coq theorems.  'No effect on values' at full strength over the evaluator model: STORE-EXTENSION INVARIANCE "
+    "text": "13 Coq theorems.  'No effect on values' at full strength over the evaluator model: STORE-EXTENSION INVARIANCE "
             "(a simulation over every expression form, FunctionDef::call and every depth: evaluating from a store related "
             "by an injective renaming of function-cell indices gives the renamed outcome, scope chain and a related store; "
             "generic in operators/built-ins that commute with renamings, discharged arm by arm for the transcribed "
-            "operators and the built-ins of EvalInst.v), hence EVAL-TWICE (an expression without a direct assignment "
-            "evaluated again gives the same outcome class and the same value up to the indices of the cells the evaluation "
-            "itself allocated; exact shift form; `equals v1 v2 = equals v1 v1`), under the stated side conditions: scope "
-            "chain without dangling cells, and the first evaluation named no cell that existed before (automatic when every "
-            "existing cell is named) — without the latter the statement is refuted in the model AND on the real "
-            "interpreter (known finding F52, fix proposed).  LET-ABSTRACTION is proved for head contexts and cell-free "
-            "values (PARTIAL; the statement for arbitrary contexts / several occurrences is kept as the Prop "
-            "C02_let_abstraction_full).  REL round: the renaming hypothesis for the FULL built-in dispatcher "
-            "(EvalFull.builtin_full: aggregates, list/string/record built-ins incl. unique/includes — Value::equals is blind "
-            "to cell indices —, convert/round/random/to_number/to_string/join, sort_by/group_by/count_by) is now PROVED "
-            "(C02_ops_commute_full_proved; proofs/RelPure.v: one relation-generic lemma per arm, proofs/C02OpsFull.v), so "
-            "store-extension invariance, the eval-twice theorems and the head-context let-abstraction are also theorems "
-            "about the evaluator the EVAL streams run (the six *_full / *_fullbi theorems), and "
-            "C02_pure_builtins_blind_to_cells: each of the 32 pure arms of builtin_full maps argument vectors that are equal "
-            "after erasing cell indices (incl. [f, f] vs [f, f'] — no renaming relates those) to outcomes equal up to cell "
-            "indices, i.e. no built-in compares functions by identity.  "
-            "Older theorems: purity of the scope chain, existing bindings "
-            "untouched, store only grows.  PARTIAL by nature: determinism across processes, hash seeds and earlier "
-            "evaluations is a property of the running code that no Gallina function can fail; it is decided by running "
-            "the same generated programs in several processes and with a dirtied heap and comparing with the "
-            "(deterministic) model; evaluate-twice and let-abstraction are ALSO searched on the implementation, incl. the "
-            "boundary shapes the side conditions single out (naming an existing anonymous function from a do-block), and "
-            "over the full built-in set with function values flowing through every list/record/aggregate built-in and the "
-            "sort_by/group_by/count_by callbacks (stream TWICE-FULL: law on the implementation + eval_full correspondence)",
+            "operators and the built-ins of EvalInst.v); NO EVALUATION WRITES TO A FUNCTION CELL THAT EXISTED BEFORE IT "
+            "(also for the full built-in dispatcher; this is what the repair of finding F52 — an assignment names a lambda "
+            "only if evaluating its right-hand side created it — made true); hence EVAL-TWICE without side condition on "
+            "names (an expression without a direct assignment evaluated again gives the same outcome class and the same "
+            "value up to the indices of the cells the evaluation itself allocated; exact shift form; `equals v1 v2 = "
+            "equals v1 v1`), the only hypothesis being a scope chain without dangling cells.  LET-ABSTRACTION is proved for "
+            "head contexts and cell-free values (PARTIAL; the statement for arbitrary contexts / several occurrences is "
+            "kept as the Prop C02_let_abstraction_full).  REL round: the renaming hypothesis for the FULL built-in "
+            "dispatcher (EvalFull.builtin_full: aggregates, list/string/record built-ins incl. unique/includes — "
+            "Value::equals is blind to cell indices —, convert/round/random/to_number/to_string/join, "
+            "sort_by/group_by/count_by) is now PROVED (C02_ops_commute_full_proved; proofs/RelPure.v: one relation-generic "
+            "lemma per arm, proofs/C02OpsFull.v), so store-extension invariance, the eval-twice theorems (unconditional on "
+            "names) and the head-context let-abstraction are also theorems about the evaluator the EVAL streams run (the "
+            "*_full / *_fullbi theorems); and C02_pure_builtins_blind_to_cells: each of the 32 pure arms of builtin_full "
+            "maps argument vectors that are equal after erasing cell indices (incl. [f, f] vs [f, f'] — no renaming relates "
+            "those) to outcomes equal up to cell indices, i.e. no built-in compares functions by identity.  "
+            "Older theorems: purity of the scope chain, existing bindings untouched, store only grows.  "
+            "PARTIAL by nature: determinism across processes, hash seeds and earlier evaluations is a property of the "
+            "running code that no Gallina function can fail; it is decided by running the same generated programs in "
+            "several processes and with a dirtied heap and comparing with the (deterministic) model; evaluate-twice and "
+            "let-abstraction are ALSO searched on the implementation, incl. the boundary shapes of F52 (naming an existing "
+            "anonymous function from a do-block / callback), strict in the implementation-level law and against the model, "
+            "and over the full built-in set with function values flowing through every list/record/aggregate built-in and "
+            "the sort_by/group_by/count_by callbacks (stream TWICE-FULL: law on the implementation + eval_full correspondence)",
     "note": "trusted: Coq kernel + vm_compute; evaluator transcription validated by the EVAL stream; the runtime "
             "behaviour the model cannot exhibit (HashMap iteration order, allocation order) is explored, not proved",
     "design_ref": "DESIGN.md section 6 C02; notes/C02.md",
@@ -373,8 +373,10 @@ def main(argv):
     nb_agree = nb_mism = 0
     try:
         stride = 2 if tier == "quick" else 1
-        sel = [p_ for p_, k_ in zip(nb_progs[:-5], nb_meta[:-5]) if not k_[0]][::stride] + nb_progs[-5:]
-        selo = [o_ for o_, k_ in zip(nb_out[:-5], nb_meta[:-5]) if not k_[0]][::stride] + nb_out[-5:]
+        # while F52 is open its class is counted, not diffed; once it is fixed the whole family is strict, in
+        # the implementation-level law above AND against the (repaired) model
+        sel = [p_ for p_, k_ in zip(nb_progs[:-5], nb_meta[:-5]) if not (k_[0] and f52_open)][::stride] + nb_progs[-5:]
+        selo = [o_ for o_, k_ in zip(nb_out[:-5], nb_meta[:-5]) if not (k_[0] and f52_open)][::stride] + nb_out[-5:]
         coq2, _ = es.parse_to_coq(h, sel)
         model2 = es.model_eval(coq2, tag="c02nb")
         nb_agree, mism2, _, _ = es.compare(sel, selo, model2)
@@ -385,7 +387,7 @@ def main(argv):
                            "first: %r\nimpl : %s\nmodel: %s" % (sel[i2], r2_, m2_))
     except c.BrokenTie as e:
         res.tie_broken(e.what, e.detail)
-    res.streams["NAMING-BOUNDARY"] = {"programs": len(nb_progs), "checked": nb_checked, "in_known_class_F52": sum(1 for k_ in nb_meta if k_[0]), "t1_succeeded": nb_t1_ok,
+    res.streams["NAMING-BOUNDARY"] = {"programs": len(nb_progs), "checked": nb_checked, "in_class_F52": sum(1 for k_ in nb_meta if k_[0]), "F52_open": f52_open, "t1_succeeded": nb_t1_ok,
                                       "differ_known_F52": nb_known, "violations": nb_viol,
                                       "model_agree": nb_agree, "model_mismatch": nb_mism,
                                       "distribution": {"pre_shapes": len(PRES), "namers": len(NAMERS), "names": 2,
@@ -472,6 +474,14 @@ def main(argv):
                             "with a successful statement + abstraction pairs actually compared" % (nproc, n_let, len(HOLES)))
     res.coverage["samples"] = [{"program": pairs[i][0], "variant": pairs[i][1]} for i in (0, 1, 2)]
     res.coverage["traces_validated_against_impl"] = agree
+    # F52 once fixed: its witness stays a regression input; a reappearance is a violation
+    if not f52_open:
+        w52 = "fs = [x => x + y]\ny = 5\nt1 = [fs[0](1), do { y = fs[0]; return 0 }]\nt2 = [fs[0](1), do { y = fs[0]; return 0 }]"
+        wo = es.rust_eval(h, [w52])[0].split(";ENV:")[0].split("|")
+        if not (len(wo) == 4 and wo[-2].startswith("OK") and strip_names(wo[-2]) == strip_names(wo[-1])):
+            res.violation("evaluating the same expression again gave a different result (F52 reappeared: an assignment "
+                          "names a function that existed before it)",
+                          {"kind": "impl-law", "program": w52, "observed": wo[-2:], "expected": "t1 and t2 both [6, 0]"})
     for e in open_known_c02():
         suffix = ""
         if e["id"] == "F52":
